@@ -219,9 +219,13 @@ def crossing_spec(direction, left, right):
 
 def events_unit(prop, n_steps, configs, backward=False, with_teval=None, event_values="signs", with_first_step=False):
     configs = list(configs)
-    evs = H.EV_SIGNS if event_values == "signs" else H.EV_RICH
+    # "near": both signs at a normal magnitude and below the root finder's xtol (the end-point shortcuts), no exact zero
+    EV_NEAR = [Fraction(-1), Fraction(-1, 10 ** 13), Fraction(1, 10 ** 13), Fraction(1)]
+    # "tiny": same-sign values whose product underflows in binary64 (constants are folded with binary64 semantics)
+    EV_TINY = [Fraction(-1, 10 ** 200), Fraction(1, 10 ** 200), Fraction(-1), Fraction(1)]
+    evs = H.EV_SIGNS if event_values == "signs" else (EV_NEAR if event_values == "near" else EV_TINY if event_values == "tiny" else H.EV_RICH)
     nm = f"{prop}_events_{n_steps}steps_{cfg_name(configs)}" + ("_back" if backward else "") + (f"_te{with_teval}" if with_teval else "") + \
-        ("_rich" if event_values != "signs" else "") + ("_firststep" if with_first_step else "")
+        ({"signs": "", "near": "_near", "tiny": "_tiny"}.get(event_values, "_rich")) + ("_firststep" if with_first_step else "")
 
     def unit(tier="quick", seed=0):
         t0 = time.time()
@@ -254,6 +258,11 @@ def events_unit(prop, n_steps, configs, backward=False, with_teval=None, event_v
                 # (b) the recorded state is the solution at the recorded time
                 for j in range(len(times)):
                     ob.check(p, same(ye_[i][j][0], times[j]), "an event's recorded state is not the interpolant/state at the event time")
+                # (a) the recorded time is a root as far as the handler could see: it is a time at which it evaluated event
+                # function i and obtained |g_i| <= xtol (an end-point shortcut, or the exact zero at Brent's probe)
+                for j in range(len(times)):
+                    roots = [c for c in p.ev.calls if same(c[0], times[j]) and c[2][i].exact_const is not None and abs(c[2][i].exact_const) <= Fraction(2, 10 ** 12)]
+                    ob.check(p, len(roots) >= 1, "an event is recorded at a time where its event function was not found (numerically) zero")
                 # ordering along the direction of integration
                 for j in range(1, len(times)):
                     ob.check(p, (times[j].t - times[j - 1].t) * d >= 0, "events of one function are not in the order of integration")
@@ -621,4 +630,4 @@ def solve_ivp_head(tier="quick", seed=0):
             ob.check(p, sig[0] == ref[0], f"{key[0]}: the solver is configured differently depending on t_eval / dense_output (builder arguments {sig[0][:80]} vs {ref[0][:80]})")
     ob.check(paths[0], len(groups) >= 6, "not every method is dispatched")
     return ob.result(t0, {"functions": ["solve_ivp (zero-interval shortcut, handler construction, solver dispatch: builder arguments)"], "bounds": f"{len(paths)} paths; options symbolic (t_eval of length 2, first_step > 0, dense flag)"},
-                     replay_fn=lambda f: replay.first_step_replay())
+                     replay_fn=lambda f: replay.head_replay(f))
